@@ -8,7 +8,7 @@ RULE = ("seeded scenarios (all objective families, N=1..5, boxes of every kind, 
         "after every step (every step for the first 200 trials, every 10th afterwards), inside every OnEndIteration callback and after Solve "
         "(refineSolution=False) the public iteration over Solver.searchData is audited: order, end points, links, count, completeness "
         "against the objective's call log, interval lengths, stored point = image of a fresh Evolvent, stored values. An invariant wrapper "
-        "re-checks the local links after every InsertDataItem call. Non-trivial: >= 4 trials; distinct = (family, N, m, box kind, "
+        "re-checks the local links after every InsertDataItem call. A further group injects one transient objective failure (at evaluation 1, 2, 3 or later) and goes on with the same Solver: the record must list exactly the completed trials at every later step. Non-trivial: >= 4 trials; distinct = (family, N, m, box kind, "
         "trial count, number of moments).")
 ASSUMPTIONS = ["evaluated at quiescent points of the global phase; after Solve only when refineSolution=False (refinement deliberately rewrites the optimum in place)",
                "interval lengths compared within 4 ulp of libm pow", "stored point compared bitwise with a fresh Evolvent of the same bounds and density"]
@@ -77,14 +77,86 @@ def cases(tier, seed):
         out.append({"N": N, "lower": lo, "upper": hi, "box": kind, "obj": obj, "r": float(rng.choice([1.3, 2.0, 3.0, 5.0])), "eps": 1e-3,
                     "iters": 400, "m": 10, "refine": False, "holder": "same", "pk": "collapse",
                     "pattern": [["iter", 1]] * 40 + [["iter", 10]] * 26})
+    # a transient objective failure (one-shot, at evaluation k = 1, 2 or later) followed by a retry / continuation on the same Solver:
+    # the record must list exactly the completed trials at every later step
+    for i in range(60 if tier == "quick" else 600):
+        rng = scenario.rng_for(seed, "C06f", i)
+        scn = scenario.gen_scenario(rng, max_iters=80, refine=False)
+        scn["iters"] = int(rng.integers(10, 80))
+        scn["eps"] = max(scenario.eps_floor(scn["N"], scn["m"]) * 1.01, min(scn["eps"], 1e-3))
+        k = [1, 1, 2, 3][i % 4] if i % 2 == 0 else int(rng.integers(1, scn["iters"]))
+        scn["fault_at"] = k
+        scn["pk"] = "fault-retry"
+        if i % 3 == 0:
+            scn["pattern"] = [["solve"], ["solve"], ["iter", 3]]
+        elif i % 3 == 1:
+            scn["pattern"] = [["iter", 1]] * (k + 6) + [["solve"]]
+        else:
+            scn["pattern"] = [["iter", int(v)] for v in rng.integers(1, 9, 6)] + [["solve"], ["solve"]]
+        out.append(scn)
     # workloads written by the repository's authors (shipped examples, solving tests) under the same oracle
     out += ambient.ambient_cases(tier)
     return out
 
 
+def run_fault_retry(scn):
+    """one-shot failure of the objective at evaluation fault_at; calls that raise are caught (as a user would) and the
+    program goes on; the record is audited after every step"""
+    import contextlib
+    import io
+    from iOpt.solver import Solver
+    record.install_phase_wrappers()
+    del record.PHASE[:]
+    install_insert_invariant()
+    _insert_stats["calls"] = 0
+    _insert_stats["bad"] = []
+    prob, info = record.make_problem(scn, cap=scn["iters"] + sum(s[1] for s in scn["pattern"] if s[0] == "iter") + 12,
+                                     fault=(scn["fault_at"], RuntimeError))
+    solver = Solver(prob, parameters=record.make_params(scn))
+    prob.solver = solver
+    m = moments.SearchInfoMonitor(prob, solver, scn["N"], scn["lower"], scn["upper"], scn["m"])
+    lst = record.RecordingListener(on_event=lambda kind, sol: m.check("callback:" + kind + "+after-fault") if (kind == "iter" and any(e["exc"] for e in prob.log)) else None)
+    solver.AddListener(lst)
+    raised = 0
+    out = io.StringIO()
+    with contextlib.redirect_stdout(out):
+        for step in scn["pattern"]:
+            try:
+                if step[0] == "iter":
+                    solver.DoGlobalIteration(step[1])
+                else:
+                    solver.Solve()
+            except RuntimeError as e:
+                if "injected fault" not in str(e):
+                    raise
+                raised += 1
+            if record.FP_GUARD in out.getvalue() and record.partition_degenerate(solver):
+                return {"violations": [], "obs": {"fp_domain_exhausted": 1}, "skip": "fp-domain-exhausted"}
+            m.check("after:" + step[0] + ("+after-fault" if any(e["exc"] for e in prob.log) else ""))
+    viol = list(m.viol)
+    for b in _insert_stats["bad"]:
+        viol.append(dict(b, mech="searchinfo:insert-postcondition"))
+    faulted = any(e["exc"] for e in prob.log)
+    done = len([e for e in prob.log if e["exc"] is None and e["ph"] == "g"])
+    obs = {"runs": 1, "fault_retry_runs": int(faulted), "faults_at_first_evaluation": int(faulted and scn["fault_at"] == 1),
+           "faults_propagated_to_caller": raised, "trials": done, "trials_after_a_fault": max(0, done - scn["fault_at"] + 1) if faulted else 0,
+           "items_checked": m.items_checked, "images_checked": m.images_checked, "insert_calls_checked": _insert_stats["calls"],
+           "moments": sum(m.moments.values())}
+    for k, v in m.moments.items():
+        obs["moments_" + k] = v
+    for v in viol:
+        v.setdefault("fault_at", scn["fault_at"])
+        v.setdefault("pattern", scn["pattern"][:6])
+    return {"violations": viol, "obs": obs, "nontrivial": done >= 4,
+            "key": "fault|%s|%d|%d|%d" % (scn["obj"]["fam"], scn["N"], scn["fault_at"], done) if done >= 4 else None,
+            "sample": dict(scenario.short(scn), pattern_kind="fault-retry", fault_at=scn["fault_at"], trials=done, raised_to_caller=raised) if scn["fault_at"] <= 2 else None}
+
+
 def run_case(scn):
     if "ambient" in scn:
         return ambient.run_ambient_case(scn, "C06")
+    if scn.get("pk") == "fault-retry":
+        return run_fault_retry(scn)
     install_insert_invariant()
     _insert_stats["calls"] = 0
     _insert_stats["bad"] = []
@@ -143,7 +215,7 @@ def finalize(obs, tier, stats):
     need = 100000 if tier == "quick" else 2000000
     if obs.get("items_checked", 0) < need:
         return "only %d stored items audited (< %d)" % (obs.get("items_checked", 0), need), {}
-    miss = [k for k in ("moments_callback:iter", "moments_after:iter", "moments_after:solve", "insert_calls_checked", "images_checked", "collapse_runs") if not obs.get(k)]
+    miss = [k for k in ("moments_callback:iter", "moments_after:iter", "moments_after:solve", "insert_calls_checked", "images_checked", "collapse_runs", "faults_at_first_evaluation", "trials_after_a_fault") if not obs.get(k)]
     if miss:
         return "never observed: %s" % miss, {}
     return None, {}
